@@ -47,6 +47,9 @@ func c02(c *Ctx) {
 	// a pod's addresses are released together (shared rule): a leftover IPv6 of a deleted pod would be
 	// inherited by its same-named successor next to an IPv4 from another interface
 	c03R1(c)
+	// shared: the status Deleting is written only to addresses nobody is bound to (writer table C03.R2) —
+	// a bound address is never marked for release behind its pod
+	c03R2(c)
 	ruleCASPublication(c, "C02.R8", "Node", map[string]string{"Finalizers": "removed on deletion; no assignment is decided on it"})
 	itemIndependent(c, "C02.R7", [][3]string{{nodeCtlPkg, "ReconcileNode.getPods", "one request per pod"}})
 }
